@@ -76,11 +76,39 @@ def illformed_moves(rng, size, n, pos=None):
             s = None
         elif k < 0.14:
             s = ()
+        elif k < 0.24:
+            # drop counts far beyond any board: around powers of two, machine-word boundaries
+            ln = rng.choice([1, 1, 2, 3])
+            s = tuple(rng.choice(BIG_DROPS + [0, 1, 1]) for _ in range(ln))
         else:
             ln = rng.choice([1, 1, 2, 2, 3, size, size + 1])
             s = tuple(rng.choice([-2, -1, 0, 0, 1, 1, 1, 2, 2, 3, size, size + 1]) for _ in range(ln))
         out.append(tak.Move(x, y, t, s))
     return out
+
+
+BIG_DROPS = [9, 15, 16, 17, 18, 31, 32, 33, 63, 64, 65, 255, 256, 257, 2**16 + 1, 2**31 - 1, 2**31, 2**32 + 1, 2**63, 2**64 + 1, -(2**31), -17]
+
+
+def tower_position(rng, size, height=None):
+    """a well-formed board with one very tall stack (taller than 16, than 32: real games pile up
+    captured stones well beyond the carry limit) topped by the mover's piece, and room around it"""
+    tak = impl()
+    from tak import pieces
+
+    ply = rng.choice([4, 5, 10, 11])
+    me = pieces.Color.WHITE if ply % 2 == 0 else pieces.Color.BLACK
+    h = height or rng.choice([17, 18, 20, 33, 40])
+    board = [[] for _ in range(size * size)]
+    x, y = rng.randrange(size), rng.randrange(size)
+    st = [pieces.Piece.cached(me, rng.choice([pieces.Kind.FLAT, pieces.Kind.FLAT, pieces.Kind.CAPSTONE]))]
+    st += [pieces.Piece.cached(pieces.Color(rng.randrange(2)), pieces.Kind.FLAT) for _ in range(h - 1)]
+    board[x + y * size] = st
+    for _ in range(rng.randrange(0, size)):
+        i = rng.randrange(size * size)
+        if not board[i]:
+            board[i] = [pieces.Piece.cached(pieces.Color(rng.randrange(2)), rng.choice([pieces.Kind.FLAT, pieces.Kind.STANDING]))]
+    return tak.Position(size=size, stones=(tak.StoneCounts(5, 1), tak.StoneCounts(5, 1)), ply=ply, board=board), (x, y)
 
 
 def illformed_moves_exhaustive(size, coords=None, maxlen=2):
